@@ -630,6 +630,30 @@ def yaml_pool():
     add("dataset_bad_table_file_other", rel % "\"sqlite:///nodb.db\"\n        table: nope",
         feats=["dataset", "relative_path", "recipe_file", "fails"])
     P[-1]["dir"] = "other"
+    def settings(region, n):
+        return (f"- var: region\n  value: {region}\n- var: n\n  value: {n}\n- macro: m\n  fields:\n"
+                "    source: ${{region}}-import\n")
+    job = ("- include_file: %s\n- object: Contact\n  count: ${{n}}\n  include: m\n  fields:\n    region: ${{region}}\n")
+    for ver, (region, n) in (("v1", ("EMEA", 2)), ("v2", ("APAC", 3))):
+        # one level: a recipe FILE in `other` includes other/settings.yml, which the application rewrites per job
+        add("include_file_" + ver, job % "settings.yml", feats=["include_file", "recipe_file", "rewritten_file"])
+        P[-1].update(dir="other", file_name="job.recipe.yml", files={"other/settings.yml": settings(region, n)})
+        # a stream recipe includes work/settings.yml (relative to the working directory)
+        add("include_stream_" + ver, job % "settings.yml", feats=["include_file", "rewritten_file"])
+        P[-1].update(files={"work/settings.yml": settings(region, n)})
+        # two levels: job -> level1.yml -> sub/level2.yml; only the innermost file is rewritten
+        add("include_two_levels_" + ver, job % "level1.yml", feats=["include_file", "recipe_file", "rewritten_file"])
+        P[-1].update(dir="other", file_name="job2.recipe.yml",
+                     files={"other/level1.yml": "- include_file: sub/level2.yml\n- var: unused\n  value: 1\n",
+                            "other/sub/level2.yml": settings(region, n)})
+        # the dataset CSV is rewritten at the same path
+        add("dataset_rewritten_" + ver, rel % "data.csv", feats=["dataset", "relative_path", "rewritten_file"])
+        P[-1].update(files={"work/data.csv": "a,b\n%s1,p\n%s2,q\n" % (n, n)})
+        # the main recipe itself, run by path, is rewritten at the same path
+        add("main_by_path_" + ver, "- object: M\n  count: %d\n  fields:\n    region: %s\n" % (n, region),
+            feats=["recipe_file", "rewritten_file"])
+        P[-1].update(dir="other", file_name="main.recipe.yml")
+    add("include_file_missing", job % "no_such_settings.yml", feats=["include_file", "fails"])
     add("random_reference_unique",
         "- object: P\n  count: 4\n  fields:\n    tag: ${{id * 10}}\n- object: Q\n  count: 4\n  fields:\n"
         "    r:\n      random_reference:\n        to: P\n        unique: true\n", random_fields=["r"],
@@ -795,6 +819,14 @@ def _directed(rng, pool_yaml):
     out.append(seq([plug_missing, plug_missing, plug_found], api="generate_data"))
     out.append(seq([plug_missing, plain, plug_found]))
     out.append(seq([Y["dataset_rel_file_other"], Y["dataset_rel_stream"], Y["dataset_rel_file_work"]], api="generate_data"))
+    # files rewritten at the same path between two runs (include targets one and two levels deep, the dataset,
+    # the main recipe run by path): the later run must see the files as they are then
+    out.append(seq([Y["include_file_v1"], Y["include_file_v2"]], api="generate_data"))
+    out.append(seq([Y["include_file_v1"], plain, Y["include_file_v2"], Y["include_file_missing"], Y["include_file_v1"]]))
+    out.append(seq([Y["include_two_levels_v1"], Y["include_two_levels_v2"], Y["include_two_levels_v1"]]))
+    out.append(seq([Y["include_stream_v1"], Y["include_stream_v2"]], fresh="spawn"))
+    out.append(seq([Y["dataset_rewritten_v1"], Y["dataset_rewritten_v2"], Y["dataset_rel_stream"]], api="generate_data"))
+    out.append(seq([Y["main_by_path_v1"], Y["main_by_path_v2"], Y["main_by_path_v1"]]))
     out.append(seq([Y["nick_var"], Y["uses_undefined_names"], Y["nick_var_other_meaning"], Y["uses_undefined_names"]]))
     out.append(seq([Y["just_once_nick"], Y["uses_first_only"], Y["uses_table_A_only"], Y["nick_var"], Y["uses_first_only"]]))
     out.append(seq([Y["counter_named_in_var"], counters, Y["counter_named_in_var"]]))
@@ -905,11 +937,47 @@ class _RunTimeout(BaseException):
     pass
 
 
+def base_files():
+    """the files every case starts with, relative to its temporary root"""
+    fs = {"other/plugins/c19_plug.py": PLUGIN_TEXT}
+    for d, txt in (("work", CSV_TEXT), ("other", CSV_OTHER)):
+        for fn in ("data.csv", "data.txt"):
+            fs[f"{d}/{fn}"] = txt
+    return fs
+
+
+def _write_files(root, files):
+    for rel, txt in (files or {}).items():
+        path = os.path.join(root, rel)
+        os.makedirs(os.path.dirname(path), exist_ok=True)
+        with open(path, "w") as f:
+            f.write(txt)
+
+
+def _reset_files(root, all_rel):
+    """back to the initial files of the case: base files restored, files written by recipes removed"""
+    base = base_files()
+    for rel in all_rel:
+        if rel not in base:
+            try:
+                os.remove(os.path.join(root, rel))
+            except OSError:
+                pass
+    _write_files(root, base)
+
+
+def _recipe_file_rel(spec):
+    return f"{spec['dir']}/{spec.get('file_name') or spec.get('name', 'r') + '.recipe.yml'}"
+
+
 def _recipe_source(spec, text, root):
-    """None for a stream recipe, else the path of the recipe FILE (written into its directory)"""
+    """None for a stream recipe, else the path of the recipe FILE (written into its directory).
+    Before the run the files the application (re)writes for this job are put in place: spec["files"]."""
+    if root:
+        _write_files(root, spec.get("files"))
     if not spec.get("dir") or not root:
         return None
-    path = os.path.join(root, spec["dir"], f"{spec.get('name', 'r')}.recipe.yml")
+    path = os.path.join(root, _recipe_file_rel(spec))
     with open(path, "w") as f:
         f.write(text)
     return path
@@ -995,6 +1063,13 @@ def run_many(payload):
         raise _RunTimeout()
     signal.signal(signal.SIGALRM, on_alarm)
     if payload.get("root"):
+        # files as they were when this (part of the) sequence starts: the initial files, then what the
+        # application wrote for the earlier jobs (`prewrite`: those jobs are NOT run in this process)
+        _reset_files(payload["root"], payload.get("all_files", []))
+        for sp in payload.get("prewrite", []):
+            _write_files(payload["root"], sp.get("files"))
+            if sp.get("dir"):
+                _write_files(payload["root"], {_recipe_file_rel(sp): recipe_text(sp, payload["csv"])})
         os.chdir(os.path.join(payload["root"], "work"))     # the application's working directory
     opts = None
     if payload["shared"]:
@@ -1131,21 +1206,17 @@ def run_impl(case):
     try:
         # <tmp>/work = the application's working directory, <tmp>/other = where recipe FILES of the
         # "other" kind live; both hold a data.csv with different content
-        for d, txt in (("work", CSV_TEXT), ("other", CSV_OTHER)):
-            os.mkdir(os.path.join(tmp, d))
-            for fn in ("data.csv", "data.txt"):
-                with open(os.path.join(tmp, d, fn), "w") as f:
-                    f.write(txt)
-        os.mkdir(os.path.join(tmp, "other", "plugins"))       # a local plugin next to the recipe files of `other`
-        with open(os.path.join(tmp, "other", "plugins", "c19_plug.py"), "w") as f:
-            f.write(PLUGIN_TEXT)
+        _write_files(tmp, base_files())     # incl. a local plugin next to the recipe files of `other`
+        all_files = sorted({rel for sp in case["recipes"] for rel in (sp.get("files") or {})} |
+                           {_recipe_file_rel(sp) for sp in case["recipes"] if sp.get("dir")})
         csv_path = os.path.join(tmp, "work", "data.csv")
         base = {"api": case.get("api", "generate"), "shared": case.get("shared_opts") or False,
-                "seed": case.get("seed", 1), "csv": csv_path, "root": tmp}
+                "seed": case.get("seed", 1), "csv": csv_path, "root": tmp, "all_files": all_files}
         seq = launch(dict(base, specs=case["recipes"], audit=True))
         fresh = []
-        for spec in case["recipes"]:
-            fresh.append(launch(dict(base, specs=[spec], audit=False))[0])
+        for i, spec in enumerate(case["recipes"]):
+            # alone in a fresh process, on the files as they are when run i starts
+            fresh.append(launch(dict(base, specs=[spec], prewrite=case["recipes"][:i], audit=False))[0])
         return {"seq": seq, "fresh": fresh, "mode": mode}
     finally:
         import shutil
@@ -1548,7 +1619,7 @@ def _seq_features(case):
     return fs
 
 
-STATEFUL = {"uid", "puid", "alpha", "date", "datetime", "dtf", "dtbetween", "counter", "named_counter", "datecounter", "lazy",
+STATEFUL = {"include_file", "rewritten_file", "uid", "puid", "alpha", "date", "datetime", "dtf", "dtbetween", "counter", "named_counter", "datecounter", "lazy",
             "dataset", "row_history", "memoised_plugin_value", "repeated_recipe", "random_reference_unique",
             "just_once", "nickname"}
 
